@@ -1,8 +1,8 @@
 (* C05 - training segments every password into a lossless, soundly typed
    tiling.  Property theorems only. *)
-From Coq Require Import List ZArith NArith Bool.
+From Coq Require Import List ZArith NArith Bool Sorting.Permutation.
 From Pcfg Require Import Str Multiword Detect Segment SegCorr DetectProofsStr DetectProofsDrive DetectProofsSimple
-     DetectProofsMw DetectProofsSeg DetectProofsWeb DetectProofsKbd DetectProofsInst.
+     DetectProofsMw DetectProofsSeg DetectProofsWeb DetectProofsKbd DetectProofsCount DetectProofsPipe DetectProofsInst.
 From PcfgGen Require Import Consts_gen Unicode_gen.
 Import ListNotations.
 Open Scope Z_scope.
@@ -88,6 +88,19 @@ Proof. exact parse_c_ok. Qed.
 Theorem C05_never_raises : forall m pw, pw <> [] -> parse_c m pw <> PErr.
 Proof. exact parse_c_never_raises. Qed.
 
+(* what one parse() adds to every counter is the tally of the sections of the
+   corresponding label (c_counters_ok: Permutation of the found list with the
+   texts of that label class -- lower-cased for alpha words and e-mails, case
+   masks for the alpha masks --, labels for count_prince, the label string and
+   its supportedness for the base structures) *)
+Theorem C05_counters : forall m pw, pw <> [] -> exists r, parse_c m pw = POk r /\ c_counters_ok r.
+Proof. exact parse_c_counters. Qed.
+
+(* ... and so for a whole pass over a list of passwords with one parser object *)
+Theorem C05_counters_fold : forall m pws, Forall (fun pw => pw <> []) pws ->
+  exists rs, map (parse_c m) pws = map POk rs /\ Forall c_counters_ok rs.
+Proof. exact parse_c_counters_fold. Qed.
+
 (* ---- why the repair was needed: the detectors as they were (searching
    section[0].lower(), slicing section[0]) on passwords with U+0130 *)
 Theorem C05_refuted_lower_0130_website :
@@ -124,5 +137,6 @@ Proof. exact demo_parse. Qed.
 
 Print Assumptions split_driver_tiling.
 Print Assumptions C05_tiling.
+Print Assumptions C05_counters.
 Print Assumptions C05_sound_multiword.
 Print Assumptions C05_refuted_lower_0130_website.
